@@ -375,6 +375,8 @@ def run(ck, tier):
     _infl.run(ck, F, 'C16')
     from . import mustpass as _mp
     _mp.run(ck, F, 'C16')
+    from . import accum as _acc
+    _acc.run(ck, F, 'C16')
     run_send_sync(ck, F)
     api.no_impl(ck, F, "C16.no-mut-view", ["arrow_buffer", "arrow_data", "arrow_array"], SHARED_TYPES, MUT_TRAITS)
     ck.rule("C16.witness", "compile-fail witnesses for immutability of shared buffers")
